@@ -573,6 +573,7 @@ func genConc(t *rapid.T) Case {
 
 func checkConc(t *testing.T, c Case) (v harness.Verdict) {
 	r := newRun(t, &v, c)
+	r.inst.SlowWriter = true
 	ctx := context.Background()
 	var wg sync.WaitGroup
 	stop := make(chan struct{})
@@ -606,6 +607,23 @@ func checkConc(t *testing.T, c Case) (v harness.Verdict) {
 	<-seqDone
 	r.exec(ctx, Op{Kind: "seq", A: -1}, false)
 	r.exec(ctx, Op{Kind: "sth"}, false)
+	// read storm: every read of the script again, from 8 goroutines at once, against the now stable tree
+	// (concurrent readers must not disturb each other's responses)
+	var sw sync.WaitGroup
+	for g := 0; g < 8; g++ {
+		sw.Add(1)
+		go func(g int) {
+			defer sw.Done()
+			for i := range c.Ops {
+				op := c.Ops[(i+g*3)%len(c.Ops)]
+				switch op.Kind {
+				case "cons", "proof", "entries", "eap", "sth":
+					r.exec(ctx, op, false)
+				}
+			}
+		}(g)
+	}
+	sw.Wait()
 	r.finalChecks(ctx)
 	v.NonTrivial = v.NonTrivial || len(r.issued) > 0
 	return v
